@@ -367,3 +367,48 @@ def connection_state(ctx, rep, rule, fields):
                "no other method rebinds it" if not others else
                "%s rebinds self.%s (`%s`): %s" % (others[0][0].name, fld, A.norm(others[0][1])[:60], why),
                ctx.loc(others[0][1]) if others else init.loc, kind="site")
+
+
+def fork_regions(ctx, g):
+    """(fork node, nodes the child can execute after os.fork(), nodes the parent can execute, child edge filter) by partial
+    evaluation of the tests on the fork result - bound to a local or tested directly (`if os.fork() == 0:`)"""
+    from .. import cfgq as Q
+    forks = [n for n in g.live if n.ast is not None and n.kind in ("stmt", "test") and A.find_calls(n.ast, "os.fork")]
+    if not forks:
+        return None
+    fk = forks[0]
+    pv = None
+    if fk.kind == "stmt" and isinstance(fk.ast, ast.Assign) and isinstance(fk.ast.targets[0], ast.Name):
+        pv = fk.ast.targets[0].id
+
+    def decider(value):
+        base = Q.var_const_decider(ctx.try_fold, pv, value) if pv else (lambda node: None)
+
+        def decide(node):
+            e = node.ast
+            if isinstance(e, ast.Call) and A.call_name(e) == "os.fork":
+                return bool(value)
+            if isinstance(e, ast.Compare) and len(e.ops) == 1:
+                l, r, op = e.left, e.comparators[0], e.ops[0]
+                other = None
+                if isinstance(l, ast.Call) and A.call_name(l) == "os.fork":
+                    other = ctx.try_fold(r)
+                elif isinstance(r, ast.Call) and A.call_name(r) == "os.fork":
+                    other = ctx.try_fold(l)
+                    op = {ast.Lt: ast.Gt, ast.Gt: ast.Lt, ast.LtE: ast.GtE, ast.GtE: ast.LtE}.get(type(op), type(op))()
+                if other is not None or (isinstance(l, ast.Call) and A.call_name(l) == "os.fork" and isinstance(r, ast.Constant)):
+                    try:
+                        return {ast.Eq: value == other, ast.NotEq: value != other, ast.Is: value == other, ast.IsNot: value != other,
+                                ast.Lt: value < other, ast.LtE: value <= other, ast.Gt: value > other, ast.GtE: value >= other}[type(op)]
+                    except (KeyError, TypeError):
+                        return None
+            return base(node)
+        return decide
+    regions = []
+    for value in (0, 4711):
+        ok = Q.valuation_edges(decider(value))
+        starts = [fk] if fk.kind == "test" else [t for t, l in fk.succ if l != "exc"]
+        regions.append(set(x.id for x in Q.reach_ef(starts, lambda a, b, l, ok=ok: l != "exc" and ok(a, b, l))))
+    child, parent = regions
+    by_id = {n.id: n for n in g.live}
+    return fk, [by_id[i] for i in child], [by_id[i] for i in parent], Q.valuation_edges(decider(0))
